@@ -6,7 +6,7 @@ import ast
 
 from ..cfg import WithCtx
 from ..core import rule
-from ..dataflow import DefUse
+from ..dataflow import DefUse, origins
 from ..program import AnalysisError, dotted, src
 from ..core import walk_local  # inline-aware
 from .common import raise_targets, handler_catching, handler_body_nodes, translation, where
@@ -63,6 +63,9 @@ def l0(ctx):
         for w in withs:
             arg = w.ast.items[0].context_expr.args[0] if w.ast.items[0].context_expr.args else None
             ok = arg is not None and src(arg) == "self.repo.index_path()"
+            if not ok and isinstance(arg, ast.Name):
+                os_ = origins(DefUse(cfg), w, arg)        # the path taken into a local first
+                ok = bool(os_) and all(o.kind == "expr" and not o.path and o.leaf is not None and src(o.leaf) == "self.repo.index_path()" for o in os_)
             obs.append(ctx.ob(ok, fi.qualname, where(fi, w), "lock is taken on self.repo.index_path()", "locked_index(self.repo.index_path())",
                               "locked_index is given `%s`, not the repository's index path: writers do not exclude each other" % (src(arg) if arg is not None else "?")))
             # FileLocked -> LockedError
